@@ -81,8 +81,8 @@ Notation file_env := (Spec.file_env prog doc).
 
 Inductive rel_env : list SEval.frame -> senv -> Prop :=
 | re_root : rel_env [FRoot doc (rf_lets prog) []] [(doc, rf_lets prog)]
-| re_block root lets fs env : rel_env fs env -> rel_env (FBlock root lets [] :: fs) ((root, lets) :: env)
-| re_value v fs env : rel_env fs env -> rel_env (FValue v :: fs) ((v, []) :: env)
+| re_block root lets fs env : G root -> rel_env fs env -> rel_env (FBlock root lets [] :: fs) ((root, lets) :: env)
+| re_value v fs env : G v -> rel_env fs env -> rel_env (FValue v :: fs) ((v, []) :: env)
 | re_skip v fs env : rel_env fs env -> rel_env fs ((v, []) :: env)
 | re_extra v fs env : rel_env fs env -> rel_env (FValue v :: fs) env.
 
@@ -371,9 +371,9 @@ Hypothesis Hres : forall env name, simS RQ env (ev_resolve r name) (resolve sr e
 
 Let ksq := proj1 Hks.
 
-Lemma rel_env_push_value s env e :
+Lemma rel_env_push_value s env e : G e ->
   rel_env (shape s) env -> rel_env (shape (mkState (FValue e :: frames s) (statuses s))) ((e, []) :: env).
-Proof. intros H. unfold shape. cbn. apply re_value. exact H. Qed.
+Proof. intros He H. unfold shape. cbn. apply re_value; assumption. Qed.
 Lemma rel_env_push_extra s env e :
   rel_env (shape s) env -> rel_env (shape (mkState (FValue e :: frames s) (statuses s))) env.
 Proof. intros H. unfold shape. cbn. apply re_extra. exact H. Qed.
@@ -383,7 +383,7 @@ Lemma filter_cond env e cnf : G e ->
   simS eq env (with_frame (FValue e) (eval_filter_cnf r cnf)) (sv_cnf sr ((e, []) :: env) cnf).
 Proof.
   intros He s Hs. apply with_frame_out. apply (Hcnf ((e, []) :: env) e cnf He eq_refl).
-  - apply rel_env_push_value, Hs.
+  - apply rel_env_push_value; assumption.
   - reflexivity.
 Qed.
 
@@ -398,7 +398,7 @@ Lemma delegate_refines env qi q part key e cnf : nth_error q qi = Some part -> G
 Proof.
   intros Hn He s Hs. apply with_frame_out. unfold check_and_delegate, keep.
   set (s1 := mkState (FValue e :: frames s) (statuses s)).
-  assert (H1 : rel_env (shape s1) ((e, []) :: env)) by (apply rel_env_push_value, Hs).
+  assert (H1 : rel_env (shape s1) ((e, []) :: env)) by (apply rel_env_push_value; assumption).
   assert (H2 : rel_env (shape s1) env) by (apply rel_env_push_extra, Hs).
   eapply (bind_out2 eq RQ env).
   - apply keeps_node. apply (ks_eval_filter_cnf r Hks).
@@ -489,9 +489,9 @@ Lemma with_value_extra {A B} (R : A -> B -> Prop) env v (m : M A) x :
   simS R env m x -> simS R env (with_frame (FValue v) m) x.
 Proof. intros H s Hs. apply with_frame_out. apply H. apply rel_env_push_extra, Hs. Qed.
 
-Lemma with_value_scope {A B} (R : A -> B -> Prop) env v (m : M A) x :
+Lemma with_value_scope {A B} (R : A -> B -> Prop) env v (m : M A) x : G v ->
   simS R ((v, []) :: env) m x -> simS R env (with_frame (FValue v) m) x.
-Proof. intros H s Hs. apply with_frame_out. apply H. apply rel_env_push_value, Hs. Qed.
+Proof. intros Hv H s Hs. apply with_frame_out. apply H. apply rel_env_push_value; assumption. Qed.
 
 Theorem query_body_refines env qi q cur : G cur ->
   simS RQ env (query_body re conv r qi q cur None) (qspec sr env qi q cur).
@@ -521,7 +521,7 @@ Proof.
       * clear -Hrel HG. induction Hrel; constructor; inversion HG; subst; auto.
       * intros a _. destruct a; try apply keeps_ret; try exact ss_refl; apply keeps_with_frame; try exact ss_push; apply (ks_rq r Hks).
       * intros a b _ [Hab Ha]. destruct a as [v|v|u], b as [lit v'|]; cbn in Hab; try contradiction;
-          try (destruct lit; try contradiction; subst v'; apply with_value_scope;
+          try (destruct lit; try contradiction; subst v'; apply with_value_scope; [exact Ha|];
                assert (E : qspec sr ((v, []) :: env) index (QKey k :: rest) v = walk sr ((v, []) :: env) (Some prev) (r0 :: rest'') v);
                [ subst index; destruct (nth_error rest 0) as [[]|]; cbn [qspec]; cbn [Nat.sub] in Hprev; rewrite ?Nat.sub_0_r in Hprev; rewrite Hprev, Hskip; reflexivity
                | rewrite <- E; apply HQ; exact Ha ]).
@@ -580,6 +580,301 @@ Proof.
         -- rewrite <- Hkeep. apply delegate_refines; assumption.
         -- rewrite <- Hkeep. apply delegate_refines; assumption.
 Qed.
+
+(* ------------------------------------------------------------------ *)
+(* variables *)
+
+Hypothesis Hsq : forall env q root, cur_value env = SOk root -> G root ->
+  simS RQ env (ev_query r 0 q root None) (sv_query sr env q).
+
+Lemma count_zero name lets : count_name name lets = 0 ->
+  find_literal name lets = None /\ find_function name lets = None /\ find_query name lets = None.
+Proof.
+  induction lets as [|[n v] lets IH]; cbn; [auto|]. destruct (String.eqb n name) eqn:E; [discriminate|].
+  cbn. intros H. destruct (IH H) as (-> & -> & ->). destruct v; auto.
+Qed.
+
+Lemma count_one name lets lv : count_name name lets = 1 -> find_let name lets = Some lv ->
+  match lv with
+  | LValue v => find_literal name lets = Some v
+  | LAccess aq => find_literal name lets = None /\ find_function name lets = None /\ find_query name lets = Some aq
+  | LFunction ps f => True
+  end.
+Proof.
+  induction lets as [|[n v] lets IH]; cbn; [discriminate|]. destruct (String.eqb n name) eqn:E; cbn.
+  - intros H Hf. inversion Hf; subst v. assert (H0 : count_name name lets = 0) by lia.
+    destruct (count_zero _ _ H0) as (-> & -> & ->). destruct lv; auto.
+  - intros H Hf. specialize (IH H Hf). destruct lv.
+    + rewrite IH. reflexivity.
+    + destruct IH as (-> & -> & ->). destruct v; auto.
+    + exact I.
+Qed.
+
+Lemma RQ_filter a b : RQ a b -> existsb is_lit b = false -> RQ (filter is_resolved a) (filter not_miss b).
+Proof.
+  intros [H1 H2]. induction H1 as [|x y a b Hxy H1 IH]; intros Hl; [apply RQ_nil|].
+  inversion H2; subst. cbn in Hl. apply Bool.orb_false_iff in Hl as [Hy Hl]. specialize (IH H4 Hl).
+  destruct x as [v|v|u], y as [[|] v'|]; cbn in Hxy; try contradiction; try discriminate; cbn [filter is_resolved not_miss].
+  - subst. apply (RQ_app [QResolved v'] _ [SV false v']); [apply RQ_one; [reflexivity|assumption]|exact IH].
+  - exact IH.
+Qed.
+
+Lemma scope_refines (is_root : bool) root lets name env_outer s :
+  G root ->
+  rel_env (shape s) ((root, lets) :: env_outer) ->
+  (is_root = true -> env_outer = []) ->
+  (is_root = false -> rel_out RQ (with_parent (ev_resolve r name) s) (resolve sr env_outer name)) ->
+  rel_out RQ (resolve_scope' r is_root root lets name s) (resolve sr ((root, lets) :: env_outer) name).
+Proof.
+  intros Hg Hs Hroot Hparent. cbn [Spec.resolve]. unfold resolve_scope'.
+  destruct (count_name name lets) as [|[|n]] eqn:Ec; [| |exact I].
+  - destruct (count_zero _ _ Ec) as (-> & -> & ->). destruct is_root.
+    + rewrite (Hroot eq_refl). exact I.
+    + apply Hparent. reflexivity.
+  - destruct (find_let name lets) as [lv|] eqn:El; [|exact I].
+    pose proof (count_one _ _ _ Ec El) as K. destruct lv as [v|aq|ps f]; [| |exact I].
+    + rewrite K. destruct (lit_ok v) eqn:Ek; [|exact I]. apply RQ_one; [reflexivity|apply G_lit, Ek].
+    + destruct K as (-> & -> & ->).
+      assert (HS : simS RQ ((root, lets) :: env_outer)
+                     (result <- ev_query r 0 (aq_query aq) root None ;; ret (if aq_all aq then result else filter is_resolved result))
+                     (res <~ sv_query sr ((root, lets) :: env_outer) (aq_query aq) ;;
+                      (if aq_all aq then SOk res else if existsb is_lit res then SOut else SOk (filter not_miss res)))).
+      { eapply simS_bind; [apply ksq|apply Hsq; [reflexivity|exact Hg]|].
+        intros a b Hab. destruct (aq_all aq); [apply simS_ret, Hab|].
+        destruct (existsb is_lit b) eqn:El2; [apply simS_SOut|]. apply simS_ret. apply RQ_filter; assumption. }
+      apply HS, Hs.
+Qed.
+
+Lemma rel_env_no_params fs env : rel_env fs env -> forall b n m rest, fs <> FParams b n m :: rest.
+Proof. induction 1; intros; try discriminate; auto. Qed.
+
+Theorem resolve_body_refines env name : simS RQ env (resolve_body' r name) (resolve sr env name).
+Proof.
+  intros s Hs. remember (shape s) as fs eqn:Efs. revert s Efs.
+  induction Hs as [|root lets fs env Hg Hs IH|v fs env Hg Hs IH|v fs env Hs IH|v fs env Hs IH]; intros s Efs.
+  - (* the file scope *)
+    unfold resolve_body'. destruct s as [[|f rest] st]; [discriminate|]. unfold shape in Efs. cbn in Efs.
+    destruct rest; [|discriminate]. destruct f; try discriminate. cbn in Efs. inversion Efs; subst. cbn [frames].
+    apply (scope_refines true); [exact G_doc|unfold shape; cbn; apply re_root|reflexivity|discriminate].
+  - (* a block scope *)
+    unfold resolve_body'. destruct s as [[|f rest] st]; [discriminate|]. unfold shape in Efs. cbn in Efs.
+    destruct f; try discriminate. cbn in Efs. inversion Efs; subst. cbn [frames].
+    apply (scope_refines false); [exact Hg|unfold shape; cbn; apply re_block; assumption|discriminate|].
+    intros _. apply with_parent_out. apply Hres. exact Hs.
+  - (* a value scope on both sides *)
+    unfold resolve_body'. destruct s as [[|f rest] st]; [discriminate|]. unfold shape in Efs. cbn in Efs.
+    destruct f; try discriminate. cbn in Efs. inversion Efs; subst. cbn [frames Spec.resolve count_name].
+    apply with_parent_out. apply Hres. exact Hs.
+  - (* a value scope the implementation has left *)
+    cbn [Spec.resolve count_name]. apply IH. exact Efs.
+  - (* a value scope only the implementation has *)
+    unfold resolve_body'. destruct s as [[|f rest] st]; [discriminate|]. unfold shape in Efs. cbn in Efs.
+    destruct f; try discriminate. cbn in Efs. inversion Efs; subst. cbn [frames].
+    apply with_parent_out. apply Hres. exact Hs.
+Qed.
+
+(* ------------------------------------------------------------------ *)
+(* a query in the current scope *)
+
+Lemma rel_env_pop_value v fs env : rel_env (FValue v :: fs) env -> rel_env fs env.
+Proof.
+  intros H. remember (FValue v :: fs) as fs0 eqn:E. revert v fs E.
+  induction H as [|root lets fs0 env Hg Hs IH|v0 fs0 env Hg Hs IH|v0 fs0 env Hs IH|v0 fs0 env Hs IH]; intros v fs E; try discriminate.
+  - inversion E; subst. apply re_skip. exact Hs.
+  - apply re_skip. eapply IH. exact E.
+  - inversion E; subst. exact Hs.
+Qed.
+
+Lemma query_s_at env q v : cur_value env = SOk v -> q <> [] -> query_s sr env q = query_at sr env q v.
+Proof.
+  intros Hv Hq. destruct q as [|p rest]; [contradiction|].
+  destruct p; try (unfold Spec.query_s, query_at; rewrite Hv; reflexivity).
+  unfold query_at. destruct (key_variable k) eqn:E; [reflexivity|]. unfold Spec.query_s. rewrite E, Hv. reflexivity.
+Qed.
+
+Theorem ctx_query_refines env v q : simC RQ env v (ctx_query r q) (query_s sr env q).
+Proof.
+  intros Hg Hcur s Hs Hv. destruct q as [|p0 rest]; [exact I|].
+  rewrite (query_s_at env (p0 :: rest) v Hcur) by discriminate.
+  unfold ctx_query. destruct s as [[|f fs] st]; [discriminate|]. cbn [frames ctx_query_fs].
+  destruct f as [root lets memo|root lets memo|root|b n m].
+  - cbn in Hv. inversion Hv; subst. apply (HQ env 0 (p0 :: rest) v Hg). exact Hs.
+  - cbn in Hv. inversion Hv; subst. apply (HQ env 0 (p0 :: rest) v Hg). exact Hs.
+  - cbn in Hv. inversion Hv; subst. apply with_parent_out. apply (HQ env 0 (p0 :: rest) v Hg).
+    unfold shape in Hs. cbn in Hs. eapply rel_env_pop_value. exact Hs.
+  - exfalso. unfold shape in Hs. cbn in Hs. eapply rel_env_no_params; [exact Hs|reflexivity].
+Qed.
+
+Lemma ks_ctxq q : kshape (ctx_query r q).
+Proof. apply (ks_ctx_query r Hks). Qed.
+
+(* ------------------------------------------------------------------ *)
+(* clauses that look at values *)
+
+Lemma last_is_filter q : q <> [] ->
+  match last q QThis with QFilter _ _ | QMapKeyFilter _ _ _ => true | _ => false end
+  = match rev q with p :: _ => is_filter_part p | [] => false end.
+Proof.
+  intros Hq. destruct (exists_last Hq) as (q' & p & ->). rewrite last_last, rev_app_distr. cbn. destruct p; reflexivity.
+Qed.
+
+Lemma bare_variable q : q <> [] ->
+  (part_is_variable (last q QThis) && Nat.eqb (List.length q) 1) = match q with [p] => part_is_variable p | _ => false end.
+Proof.
+  intros Hq. destruct q as [|p [|p2 rest]]; [contradiction| |].
+  - cbn. apply Bool.andb_true_r.
+  - cbn [List.length Nat.eqb]. apply Bool.andb_false_r.
+Qed.
+
+Lemma empty_on_expr_eq q : q <> [] ->
+  match last q QThis with
+  | QFilter _ _ | QMapKeyFilter _ _ _ => true
+  | rest => part_is_variable rest && Nat.eqb (List.length q) 1
+  end = (match rev q with p :: _ => is_filter_part p | [] => false end || match q with [p] => part_is_variable p | _ => false end).
+Proof.
+  intros Hq. rewrite <- (last_is_filter q Hq), <- (bare_variable q Hq). destruct (last q QThis); reflexivity.
+Qed.
+
+Definition Rst (a : qres * status) (b : status) : Prop := snd a = b.
+
+Lemma map_snd_Rst l l' : Forall2 Rst l l' -> map snd l = l'.
+Proof. induction 1; cbn; [reflexivity|]. unfold Rst in H. congruence. Qed.
+
+Lemma has_status_existsb st (l : list (qres * status)) : has_status st l = existsb (status_eqb st) (map snd l).
+Proof. unfold has_status. induction l; cbn; [reflexivity|]. now rewrite IHl. Qed.
+
+Lemma aggregate_outcome (all : bool) (l : list (qres * status)) :
+  (if all then (if has_status FAIL l then FAIL else PASS) else (if has_status PASS l then PASS else FAIL)) = aggregate all (map snd l).
+Proof. unfold aggregate. rewrite !has_status_existsb. reflexivity. Qed.
+
+Lemma is_unary_base o : is_unary o = true -> exists base, unary_base o = Some base.
+Proof. destruct o; try discriminate; intros _; eexists; reflexivity. Qed.
+
+Lemma polarity_eq (b neg pre : bool) : (if (if pre then negb (if neg then negb b else b) else (if neg then negb b else b)) then PASS else FAIL) = polarity b neg pre.
+Proof. unfold polarity. destruct b, neg, pre; reflexivity. Qed.
+
+(* the tail of eval_guard_access_clause: values to a clause status *)
+Definition access_tail (all : bool) (res : evaluation_result) : M (status * bool) :=
+  match res with
+  | EmptyQueryResult st => ret (st, all)
+  | QueryValueResult l =>
+      if has_status SKIP l then panicM P_skip_in_values
+      else ret (if all then (if has_status FAIL l then FAIL else PASS) else (if has_status PASS l then PASS else FAIL), negb all)
+  end.
+
+Lemma access_tail_values env all l sts :
+  same_verdicts (map snd l) sts -> simS (fun p st => fst p = st) env (access_tail all (QueryValueResult l)) (SOk (aggregate all sts)).
+Proof.
+  intros H. unfold access_tail. destruct (has_status SKIP l); [apply simS_panic|].
+  apply simS_ret. cbn [fst]. rewrite aggregate_outcome. apply aggregate_same, H.
+Qed.
+
+(* plumbing *)
+Lemma bind_assoc_out {A B C D} (R : C -> D -> Prop) (ma : M A) (f : A -> M B) (g : B -> M C) s x :
+  rel_out R ((a <- ma ;; (b <- f a ;; g b)) s) x -> rel_out R ((b <- (a <- ma ;; f a) ;; g b) s) x.
+Proof.
+  unfold bind. destruct (ma s) as [[[a r1] s1]| | | |]; auto.
+  destruct (f a s1) as [[[b r2] s2]| | | |]; auto.
+  destruct (g b s2) as [[[c r3] s3]| | | |]; auto.
+Qed.
+
+Lemma wrap_fst_out {A} (m : M (status * A)) mk s x :
+  rel_out (fun p st => fst p = st) (m s) x -> rel_out eq ((p <- node m mk ;; ret (fst p)) s) x.
+Proof. unfold bind, node, ret. destruct (m s) as [[[[st a] r1] s1]| | | |], x; cbn; auto. Qed.
+
+Lemma smap_pure {A B} (g : A -> B) l : smap (fun x => SOk (g x)) l = SOk (map g l).
+Proof. induction l; cbn; [reflexivity|]. now rewrite IHl. Qed.
+
+(* computations that only write records *)
+Definition pureM {A} (m : M A) (a : A) : Prop := forall s, exists recs, m s = Done (a, recs, s).
+Lemma pure_ret {A} (a : A) : pureM (ret a) a.
+Proof. intros s. eexists. reflexivity. Qed.
+Lemma pure_leaf c : pureM (leaf c) tt.
+Proof. intros s. eexists. reflexivity. Qed.
+Lemma pure_bind {A B} (m : M A) a (f : A -> M B) b : pureM m a -> pureM (f a) b -> pureM (bind m f) b.
+Proof. intros Hm Hf s. destruct (Hm s) as [r1 E1]. destruct (Hf s) as [r2 E2]. unfold bind. rewrite E1, E2. eexists. reflexivity. Qed.
+Lemma pure_mapM {A B} (f : A -> M B) (g : A -> B) l : (forall x, pureM (f x) (g x)) -> pureM (mapM f l) (map g l).
+Proof.
+  intros H. induction l as [|x l IH]; cbn [mapM map]; [apply pure_ret|].
+  eapply pure_bind; [apply H|]. eapply pure_bind; [exact IH|]. apply pure_ret.
+Qed.
+Lemma pure_concatMapM {A B} (f : A -> M (list B)) (g : A -> list B) l : (forall x, pureM (f x) (g x)) -> pureM (concatMapM f l) (flat_map g l).
+Proof.
+  intros H. unfold concatMapM. eapply pure_bind; [apply pure_mapM, H|]. rewrite flat_map_concat_map. apply pure_ret.
+Qed.
+Lemma pure_out {A B} (R : A -> B -> Prop) (m : M A) a s x : pureM m a ->
+  match x with SOk b => R a b | SUndef => False | SOut => True end -> rel_out R (m s) x.
+Proof. intros Hm Hx. destruct (Hm s) as [recs E]. rewrite E. destruct x; auto. Qed.
+Lemma pure_bind_out {A B C} (R : B -> C -> Prop) (m : M A) a (f : A -> M B) s x :
+  pureM m a -> rel_out R (f a s) x -> rel_out R (bind m f s) x.
+Proof.
+  intros Hm Hf. destruct (Hm s) as [recs E]. unfold bind. rewrite E. destruct (f a s) as [[[b r2] s2]| | | |], x; cbn in *; auto.
+Qed.
+
+(* the reporting loop of binary_operation only writes records *)
+Lemma report_loop c custom l :
+  pureM (concatMapM (fun e => mapM (fun t => let '(cc, v, st) := t in _ <- leaf (KClauseValueCheck cc) ;; ret (v, st)) (report_binary c custom e)) l)
+        (flat_map (fun e => map (fun t => let '(cc, v, st) := t in (v, st)) (report_binary c custom e)) l).
+Proof.
+  apply pure_concatMapM. intros e. apply pure_mapM. intros [[cc v] st].
+  eapply pure_bind; [apply pure_leaf|apply pure_ret].
+Qed.
+
+(* the values of a comparison against a literal, up to the clause status *)
+Lemma binary_tail_refines env lhs svals o neg rv custom all :
+  is_unary o = false -> RQ lhs svals ->
+  simS (fun p st => fst p = st) env
+    (res <- (results <- lift (cmp_compare re (o, neg) lhs [QLiteral rv]) ;;
+             match results with
+             | ESkip => ret (EmptyQueryResult SKIP)
+             | EResult l =>
+                 res <- concatMapM (fun e => mapM (fun t => let '(cc, v, st) := t in _ <- leaf (KClauseValueCheck cc) ;; ret (v, st))
+                                                  (report_binary (o, neg) custom e)) l ;;
+                 ret (QueryValueResult res)
+             end) ;;
+     access_tail all res)
+    (match svals with
+     | [] => SOk SKIP
+     | [SV true l] => sts <~ check_literal re o neg l rv ;; SOk (aggregate all sts)
+     | _ => sts <~ sflat (fun x => check_value re o neg x rv) svals ;; SOk (aggregate all sts)
+     end).
+Proof.
+  intros Hu [Hrel HG] s Hs.
+  assert (Hspec : match svals with
+                  | [] => SOk SKIP
+                  | [SV true l] => sts <~ check_literal re o neg l rv ;; SOk (aggregate all sts)
+                  | _ => sts <~ sflat (fun x => check_value re o neg x rv) svals ;; SOk (aggregate all sts)
+                  end = match svals with [] => SOk SKIP | _ => sts <~ spec_binary re o neg svals rv ;; SOk (aggregate all sts) end).
+  { unfold spec_binary. destruct svals as [|[[|] l|] [|y rest]]; reflexivity. }
+  rewrite Hspec. clear Hspec.
+  destruct lhs as [|q0 lhs'].
+  - inversion Hrel; subst. cbn. reflexivity.
+  - assert (Hne : svals <> []) by (inversion Hrel; discriminate).
+    destruct svals as [|y0 svals']; [contradiction|]. set (svals := y0 :: svals') in *. set (lhs := q0 :: lhs') in *.
+    pose proof (spec_binary_not_undef re o neg svals rv) as Hnu.
+    destruct (cmp_compare re (o, neg) lhs [QLiteral rv]) as [[|l]|e| | |] eqn:Ec.
+    + exfalso. revert Ec. apply cmp_compare_not_skip; discriminate.
+    + destruct (spec_binary re o neg svals rv) as [sts| |] eqn:Es; cbn [sbind]; [|contradiction|exact I].
+      apply bind_assoc_out. eapply pure_bind_out; [intros s0; eexists; reflexivity|].
+      apply bind_assoc_out. eapply pure_bind_out; [apply report_loop|].
+      eapply pure_bind_out; [apply pure_ret|].
+      refine (access_tail_values env all _ sts _ s Hs).
+      pose proof (binary_refines re o neg lhs svals rv l custom sts Hrel) as Hb.
+      assert (Hok : forall v0, In v0 (selected_values lhs) -> nin_ok re v0 rv).
+      { intros v0 Hin. apply G_notin. clear -Hin HG. induction lhs as [|a lhs IH]; [destruct Hin|]. inversion HG; subst.
+        destruct a; cbn in Hin; try (destruct Hin as [<-|Hin]; [assumption|]); auto. }
+      specialize (Hb Hok Ec Es).
+      assert (E : map snd (flat_map (fun e => map (fun t : clause_check * qres * status => let '(_, v, st) := t in (v, st)) (report_binary (o, neg) custom e)) l)
+                  = sts_of (o, neg) custom l).
+      { unfold sts_of. clear. induction l as [|e l IH]; cbn; [reflexivity|]. rewrite !map_app, IH. f_equal.
+        rewrite map_map. apply map_ext. intros [[cc v] st]. reflexivity. }
+      rewrite E. exact Hb.
+    + exfalso. revert Ec. apply cmp_compare_no_err. exact Hu.
+    + unfold bind, lift. destruct (spec_binary re o neg svals rv); cbn; exact I.
+    + unfold bind, lift. destruct (spec_binary re o neg svals rv); cbn; exact I.
+    + unfold bind, lift. destruct (spec_binary re o neg svals rv); cbn; exact I.
+Qed.
+
 
 End Bodies.
 
